@@ -19,29 +19,11 @@
 (* (single gaps, two-character names) so that (M) is self-contained.  The    *)
 (* conformance passes re-render the emitted shapes as real text and take the *)
 (* positions from that text.                                                 *)
-EXTENDS LoaderProc, IOUtils, Json, SequencesExt
+EXTENDS LoaderProc, LoaderProcCarrier, IOUtils, Json, SequencesExt
 
 CONSTANTS Family,     \* "c13" | "c33" | "c34": which dimension is enumerated
           MaxObjs, MaxFiles, MaxRefs, MaxPostpone
 
-CarrierMeta ==
-  [Model   |-> << [name |-> "imports", many |-> TRUE, decl |-> "Import"],
-                  [name |-> "first", many |-> FALSE, decl |-> "Def"],
-                  [name |-> "elems", many |-> TRUE, decl |-> "Elem"] >>,
-   Import  |-> << >>,
-   Pkg     |-> << [name |-> "head", many |-> FALSE, decl |-> "DefB"],
-                  [name |-> "defs", many |-> TRUE, decl |-> "Def"],
-                  [name |-> "elems", many |-> TRUE, decl |-> "Elem"] >>,
-   Grp     |-> << [name |-> "items", many |-> TRUE, decl |-> "Def"] >>,
-   Box     |-> << [name |-> "inner", many |-> FALSE, decl |-> "Cell"] >>,
-   Cell    |-> << >>, DefA |-> << >>, DefB |-> << >>, Use |-> << >>, UseList |-> << >>]
-
-Allowed(decl) ==
-  CASE decl = "Import" -> {"Import"}
-    [] decl = "Def"    -> {"DefA", "DefB"}
-    [] decl = "DefB"   -> {"DefB"}
-    [] decl = "Cell"   -> {"Cell"}
-    [] decl = "Elem"   -> {"Pkg", "Grp", "Box", "DefA", "DefB", "Use", "UseList"}
 DefKinds == {"DefA", "DefB"}
 NrefChoices(kd) ==
   CASE kd = "Use" -> {1} [] kd = "UseList" -> {1, 2} [] kd = "DefA" -> {0, 1} [] OTHER -> {0}
@@ -179,13 +161,15 @@ RelevantRules(s) == UNION {{s[o].kind, IF s[o].parent = 0 THEN s[o].kind
 Tables(s) == SetToSeq({<<P, R>> \in (SUBSET RelevantRules(s)) \X (SUBSET RelevantRules(s)) : R \subseteq P})
 
 C13Scenarios(u) ==
-  Flat([i \in 1..Len(Shapes) |->
-          LET s == Shapes[i]
+  LET S == Shapes IN
+  Flat([i \in 1..Len(S) |->
+          LET s == S[i]
               base == Build(s, DefaultRefs(s), "main.m", <<>>, <<>>, NoFault)
               ts == Tables(s)
           IN [j \in 1..Len(ts) |-> [base EXCEPT !.procs = SeqOfSet(ts[j][1]), !.repl = SeqOfSet(ts[j][2])]]])
 \* shapes only (the conformance pass multiplies them with processor tables itself)
-ShapeScenarios(u) == [i \in 1..Len(Shapes) |-> Build(Shapes[i], DefaultRefs(Shapes[i]), "main.m", <<>>, <<>>, NoFault)]
+ShapeScenarios(u) == LET S == Shapes IN
+                     [i \in 1..Len(S) |-> Build(S[i], DefaultRefs(S[i]), "main.m", <<>>, <<>>, NoFault)]
 
 \* C33: every processor call and every named object's name match as the failing
 \* site, every row of the decision table
@@ -194,8 +178,9 @@ SupChoices == {<<l, c, n, f>> \in {0, 77} \X {0, 88} \X {0, 99} \X {"", "supplie
 Excs == SetToSeq({[exc |-> "txnoloc", sup |-> <<0, 0, 0, "">>], [exc |-> "other", sup |-> <<0, 0, 0, "">>]}
                  \cup {[exc |-> "txsome", sup |-> u] : u \in SupChoices})
 C33Scenarios(u) ==
-  Flat([i \in 1..Len(Shapes) |->
-    LET s == Shapes[i]
+  LET S == Shapes IN
+  Flat([i \in 1..Len(S) |->
+    LET s == S[i]
         rs == DefaultRefs(s)
         procs == SeqOfSet(RelevantRules(s))
         base(main) == Build(s, rs, main, procs, <<>>, NoFault)
@@ -216,8 +201,9 @@ C33Scenarios(u) ==
                [b EXCEPT !.fault = flt(sites[a], Excs[c], TRUE)]>>])])])])
 
 C34Scenarios(u) ==
-  Flat([i \in 1..Len(Shapes) |->
-          LET s == Shapes[i] rss == AllRefs(s) IN
+  LET S == Shapes IN
+  Flat([i \in 1..Len(S) |->
+          LET s == S[i] rss == AllRefs(s) IN
           [j \in 1..Len(rss) |-> Build(s, rss[j], "main.m", <<>>, <<>>, NoFault)]])
 
 \* each family is a constant definition (evaluated once by TLC); only the chosen one is built
